@@ -233,7 +233,9 @@ def wild_edit(wf, rng):
     elif e == "join_zero":
         t["join"] = 0
     elif e == "retarget" and t.get("next"):
-        rng.choice(t["next"])["do"] = [rng.choice(names)]
+        tr = rng.choice(t["next"])
+        if not any("i" in p for p in (tr.get("publish") or []) if isinstance(p, dict)):
+            tr["do"] = [rng.choice(names)]
     elif e == "self_loop":
         t.setdefault("next", []).append({"when": "<% failed() %>", "do": [rng.choice(names)]})
     elif e == "action_expr":
@@ -241,7 +243,9 @@ def wild_edit(wf, rng):
     elif e == "input_str":
         t["input"] = "<%% ctx(%s) %%>" % v
     elif e == "publish_weird" and t.get("next"):
-        rng.choice(t["next"])["publish"] = [{"x": {"nested": ["<% result() %>", {"k": "<% ctx(x) %>"}]}}, {"y": None}]
+        tr = rng.choice(t["next"])
+        if "publish" not in tr:  # never replace a loop counter: an unbounded loop is the definition's own fault
+            tr["publish"] = [{"x": {"nested": ["<% result() %>", {"k": "<% ctx(x) %>"}]}}, {"y": None}]
     elif e == "output_ref":
         wf["output"] = (wf.get("output") or []) + [{"extra": "<%% ctx(%s) %%>" % v}]
     elif e == "retry_when_ref":
@@ -255,6 +259,9 @@ def wild_edit(wf, rng):
     elif e == "cont_cmd" and t.get("next"):
         rng.choice(t["next"])["do"] = rng.choice([["continue"], ["noop"], ["fail"], "noop, fail"])
     return e
+
+
+RELABEL = {"exception_escaped": ["C15", "internal_error_on_accepted_definition"]}
 
 
 def soundness(job):
@@ -288,7 +295,7 @@ def soundness(job):
                                           job=dict({x: job[x] for x in job if x not in ("lo", "hi")}, only=[seed], lo=seed, hi=seed + 1)))
             continue
         for sched in range(2):
-            ms = [x for x in workloads.monitors() if x.name in ("status", "appendonly")]
+            ms = [x for x in workloads.monitors() if x.name in ("arrival_items", "status", "appendonly")]
             try:
                 run = explore.make_run(dict(wf=wf, inputs=inputs, oseed=seed, p_fail=0.2), ms, model=None)
             except Exception as e:
@@ -299,12 +306,8 @@ def soundness(job):
                 break
             explore.run_free(run, explore.Policy(pseed=h64(seed, sched), lazy_pct=40 * sched), max_steps=150)
             run.finish()
-            for v in run.violations:
-                if v["kind"] == "exception_escaped":
-                    v["prop"] = "C15"
-                    v["kind"] = "internal_error_on_accepted_definition"
             out["evaluations"] += 1
-            workloads.collect(out, job, run, None, (seed, sched), lambda r, mm: True, extra=dict(edits=edits))
+            workloads.collect(out, dict(job, relabel=RELABEL), run, None, (seed, sched), lambda r, mm: True, extra=dict(edits=edits))
     return out
 
 
